@@ -130,9 +130,14 @@ func strictDecode(b []byte) (*item, error) {
 	return it, nil
 }
 
-// strictShallow: header canonical, size within input, nothing after the item; content of lists not inspected.
+// strictShallow: header canonical, size within input, nothing after the item; the content is not inspected
+// (not even the one payload byte that rule (c) looks at). This is the contract of rlp.RawValue / Stream.Raw:
+// "the decoder does not verify whether the content of RawValues is valid RLP".
 func strictShallow(b []byte) error {
 	_, hl, pl, err := strictHeader(b)
+	if err == errSingleWrap {
+		hl, pl, err = 1, 1, nil
+	}
 	if err != nil {
 		return err
 	}
